@@ -365,6 +365,8 @@ def main():
     if args.replay:
         rp = json.load(open(args.replay))
         cases = rp.get("cases") or [rp["case"]]
+        if rp.get("via") == "plain":
+            build = build_repo.ensure_build("plain")
         rs = run_cli(build, driver, cases) if rp.get("via") == "cli" else run_cases(build, driver, cases, cfg.get("timeout", 10))
         bad = 0
         for r in rs:
@@ -431,6 +433,21 @@ def main():
             if not v.startswith("ok") and not v.startswith("error") and not match_known(known, prop, r["case"], v):
                 violations.append(r)
         results += rs2
+    # ... and on the UNSANITISED build: AddressSanitizer quarantines freed memory, so behaviour that needs an address to be
+    # reused at once (a stale memo entry keyed by a pointer) cannot show in the sanitised harness
+    if aud["broken"] and not violations and not cfg.get("only_crashes") and not args.n:
+        try:
+            bplain = build_repo.ensure_build("plain")
+            rs3 = run_cases(bplain, driver, gen_cases + more, cfg.get("timeout", 10))
+            extra_searched += len(rs3)
+            for r in rs3:
+                r["via"] = "plain"
+                v = r["verdict"]
+                if not v.startswith("ok") and not v.startswith("error") and not match_known(known, prop, r["case"], v):
+                    violations.append(r)
+            results += rs3
+        except Exception as e:  # noqa
+            print("note: search on the unsanitised build skipped:", str(e)[:200])
 
     exit_code = 0
     printed = set()
@@ -445,10 +462,13 @@ def main():
         # prefer a case that also fails when run alone in a fresh process (not a victim of process-wide state left
         # behind by an earlier failing case)
         first = violations[0]
+        if first.get("via") == "plain":
+            build = build_repo.ensure_build("plain")      # found on the unsanitised build: confirm / shrink / replay there
         for cand in violations[:12]:
             if cand.get("via") == "cli":
                 continue
             r1 = run_cases(build, driver, [cand["case"]], cfg.get("timeout", 10), isolate=True)[0]
+            r1["via"] = cand.get("via", "api")
             if not r1["verdict"].startswith("ok") and not r1["verdict"].startswith("error"):
                 first = r1
                 break
